@@ -144,6 +144,15 @@ Definition m_to_string (d : bs) : list bool :=
 (** operator=(const std::vector<bool>&) *)
 Definition m_assign (d other : bs) : bs := other.
 
+(** operator=(const std::bitset<N>&): mData.resize( N); for (idx < N) mData[idx] = other[idx];
+    [other] holds the N bits of the std::bitset *)
+Definition m_assign_bitset (d other : bs) : res bs :=
+  for_up (length other) 0 (fun idx d' => put d' idx (nth idx other false)) (vresize d (length other) false).
+
+(** DynamicBitset( const std::bitset<N>&): mData( N, false); for (idx < N) mData[idx] = other[idx]; *)
+Definition m_ctor_bitset (other : bs) : res bs :=
+  for_up (length other) 0 (fun idx d' => put d' idx (nth idx other false)) (repeat false (length other)).
+
 (** operator==(other) *)
 Definition m_eq (d other : bs) : bool := veq d other.
 
@@ -370,6 +379,8 @@ Inductive op :=
 | OFlipAll
 | OResize (count : nat) (init : bool)
 | OAssign (o : bs)                  (* bs = vector<bool> *)
+| OAssignBs (o : bs)                (* bs = std::bitset<N> *)
+| OCtorBs (o : bs)                  (* bs = DynamicBitset( std::bitset<N>) *)
 | OEq (o : bs)                      (* bs == o *)
 | OAndA (o : bs) | OOrA (o : bs) | OXorA (o : bs)    (* bs &= o ... *)
 | OAnd (o : bs) | OOr (o : bs) | OXor (o : bs)       (* bs = bs & o ... *)
@@ -396,6 +407,8 @@ Definition step (d : bs) (o : op) : res (bs * outv) :=
   | OFlipAll => Ok (m_flip_all d, VNone)
   | OResize c i => Ok (m_resize d c i, VNone)
   | OAssign o => Ok (m_assign d o, VNone)
+  | OAssignBs o => upd (m_assign_bitset d o)
+  | OCtorBs o => upd (m_ctor_bitset o)
   | OEq o => Ok (d, VBool (m_eq d o))
   | OAndA o => upd (m_and_assign d o)
   | OOrA o => upd (m_or_assign d o)
